@@ -1,5 +1,6 @@
 import ExprModel.Gen.Opcodes
 import ExprModel.Proofs.CompileWf
+import ExprModel.Proofs.Sound
 /-
 C05 — Emitted bytecode is well-formed and stack-balanced.
 
@@ -120,5 +121,63 @@ example :
     (match compileProgram {} (.cond {} (.bool {} true) (.binary {} "and" (.bool {} true) (.bool {} false)) (.nil {})) with
      | .ok c => decide (∀ i ∈ c.code, i.instr.op.isJump = true → i.instr.arg < 65536) && wfStatic c.bytes c.consts
      | .error _ => false) = true := by decide
+
+/-! ### what acceptance by the checker means -/
+
+/-- An accepted program decodes faithfully, to exactly its end, into instructions whose operands are
+    acceptable, whose jumps land on the total size of a prefix of the program (an instruction boundary inside
+    it, or its end), and whose Begin/End nest. -/
+theorem wfStatic_sound (bytes : List Nat) (consts : Array Val) (h : wfStatic bytes consts = true) :
+    ∃ is : List Instr, encodeAll is = bytes ∧ (∀ i ∈ is, argOk consts i = true) ∧
+      (∀ pre i post, is = pre ++ i :: post →
+        (i.op.argClass = .jumpFwd → ∃ p q, is = p ++ q ∧ codeSize p = codeSize pre + i.size + i.arg) ∧
+        (i.op.argClass = .jumpBack → i.arg ≤ codeSize pre + i.size ∧
+            ∃ p q, is = p ++ q ∧ codeSize p = codeSize pre + i.size - i.arg)) ∧
+      nestOk 0 is = some 0 := ExprModel.wfStatic_sound bytes consts h
+
+/-- the checker does reject: an unknown opcode, a truncated operand, a jump into the middle of an instruction,
+    a constant of the wrong class, an unmatched OpEnd -/
+example : wfStatic [99] #[] = false ∧ wfStatic [0, 0] #[.nil] = false ∧
+    wfStatic [14, 1, 0, 0, 0, 0] #[.nil] = false ∧ wfStatic [3, 0, 0] #[.int .int 1] = false ∧
+    wfStatic [51] #[] = false ∧ wfStatic [14, 3, 0, 0, 0, 0] #[.nil] = true := by decide
+
+/-! ### patchJump: exact below 64 KiB, truncated above -/
+
+theorem patchJump_exact (pre body post : List Instr) (j : Instr) (hj : j.op.argClass = .jumpFwd)
+    (hk : j.arg = codeSize body) (hfit : codeSize body < 65536) :
+    ∃ j', decodeAt (encodeAll (pre ++ j :: (body ++ post))) (codeSize pre) = some j' ∧ j'.op = j.op ∧
+      codeSize pre + j'.size + j'.arg = codeSize (pre ++ j :: body) :=
+  ExprModel.patchJump_exact pre body post j hj hk hfit
+
+theorem calcBackwardJump_exact (pre loop post : List Instr) (j : Instr) (hj : j.op.argClass = .jumpBack)
+    (hk : j.arg = codeSize loop + 3) (hfit : codeSize loop + 3 < 65536) :
+    ∃ j', decodeAt (encodeAll (pre ++ loop ++ j :: post)) (codeSize (pre ++ loop)) = some j' ∧ j'.op = j.op ∧
+      codeSize (pre ++ loop) + j'.size - j'.arg = codeSize pre :=
+  ExprModel.calcBackwardJump_exact pre loop post j hj hk hfit
+
+/-- a body of 64 KiB or more: the stored operand is `|body| % 65536`; the jump falls short of its target -/
+theorem patchJump_truncates (pre body post : List Instr) (j : Instr) (hj : j.op.argClass = .jumpFwd)
+    (hk : j.arg = codeSize body) (hbig : 65536 ≤ codeSize body) :
+    ∃ j', decodeAt (encodeAll (pre ++ j :: (body ++ post))) (codeSize pre) = some j' ∧
+      j'.arg = codeSize body % 65536 ∧ codeSize pre + j'.size + j'.arg < codeSize (pre ++ j :: body) :=
+  ExprModel.patchJump_truncates pre body post j hj hk hbig
+
+/-- **Witness of the defect** (what the unguarded patchJump does): `JumpIfFalse 65540` over a 65540-byte
+    body, once encoded, reads back as `JumpIfFalse 4` — the target is byte 7 instead of the boundary 65543. -/
+theorem jump_truncation_witness :
+    let body := List.replicate 65540 (⟨.pop, 0⟩ : Instr)
+    let j : Instr := ⟨.jumpIfFalse, codeSize body⟩
+    codeSize body = 65540 ∧
+    decodeAt (encodeAll (j :: (body ++ [⟨.true_, 0⟩]))) 0 = some ⟨.jumpIfFalse, 4⟩ ∧
+    0 + 3 + 4 ≠ codeSize (j :: body) := by
+  intro body j
+  have hb : codeSize body = 65540 := codeSize_replicate_pop 65540
+  refine ⟨hb, ?_, ?_⟩
+  · have := decodeAt_encode [] j (body ++ [⟨.true_, 0⟩])
+    simp only [List.nil_append, codeSize_nil] at this
+    rw [this]
+    show some (⟨.jumpIfFalse, if Op.jumpIfFalse.hasArg then codeSize body % 65536 else 0⟩ : Instr) = _
+    rw [hb]; rfl
+  · simp [hb, Instr.size, Op.hasArg, j]
 
 end ExprModel.C05
